@@ -12,13 +12,18 @@ SHARD = 250
 RULE = ('cases = (table, back-end, algorithm run); runs = from_context default / CbO / Lindig with '
         'iterate_extents True, False, None / Sofia with L_max >= number of concepts, the three CbO generators '
         '(yielded sequence compared exactly), sofia() and lindig_algorithm() called directly, '
-        'FormalConcept.from_objects by index and by name; every result is compared with the Coq model and, '
+        'FormalConcept.from_objects by index and by name; plus the LATTICE from_context returns (listing order, '
+        'children / parents / descendants / ancestors of every index, cached top / bottom) for the default, CbO, '
+        'Lindig in both directions and Sofia, compared with the end-to-end model and with the inclusion-order spec; '
+        'the CbO sequences are also compared with the literal explicit-stack model; '
+        'every result is compared with the Coq model and, '
         'independently, with the 2^n closure enumeration concepts_spec; '
         'non-trivial = the table has >= 4 concepts and two objects with equal or nested rows')
 EXHAUSTIVE = {'thorough': 'all boolean tables of shape h x w with h, w <= 4 and h*w <= 12 (incl. 3x4 and 4x3): '
                           'every table x {from_context CbO, the three CbO generators, sofia()}; the other eight '
                           'runs (from_context default / Lindig x3 / Sofia, lindig_algorithm x3) on every table '
-                          'with h*w < 12 and rotated two per table on the 3x4 / 4x3 tables; back-ends rotated'}
+                          'with h*w < 12 and rotated two per table on the 3x4 / 4x3 tables; one of the five '
+                          'lattice runs per table, rotated; back-ends rotated'}
 ASSUMPTIONS = [
     'tables have at least one row and one column; object / attribute names are distinct',
     "Sofia is run with min_supp = 0 and L_max >= the number of concepts (the generator's own count), "
@@ -38,14 +43,18 @@ COQ_BACKEND = {'BinTableLists': 'BLists', 'BinTableNumpy': 'BNumpy', 'BinTableBi
 UNKNOWN = 900
 
 # (algo, iterate_extents)
-LATTICE_RUNS = [(0, None), (1, None), (2, True), (2, False), (2, None), (3, None), (4, None), (5, None),
+RUNS13 = [(0, None), (1, None), (2, True), (2, False), (2, None), (3, None), (4, None), (5, None),
                 (6, None), (7, None), (8, True), (8, False), (8, None)]
 CORE_RUNS = [(1, None), (4, None), (5, None), (6, None), (7, None)]
-ROTATED_RUNS = [r for r in LATTICE_RUNS if r not in CORE_RUNS]
+ROTATED_RUNS = [r for r in RUNS13 if r not in CORE_RUNS]
 ALGO_NAMES = {0: 'from_context()', 1: "from_context('CbO')", 2: "from_context('Lindig')",
               3: "from_context('Sofia')", 4: 'close_by_one', 5: 'close_by_one_objectwise',
               6: 'close_by_one_objectwise_fbarray', 7: 'sofia', 8: 'lindig_algorithm',
-              9: 'from_objects(idx)', 10: 'from_objects(names)'}
+              9: 'from_objects(idx)', 10: 'from_objects(names)', 11: 'LATTICE from_context()',
+              12: "LATTICE from_context('CbO')", 13: "LATTICE from_context('Lindig')",
+              14: "LATTICE from_context('Sofia')"}
+# the lattice object end to end: listing order, children / parents / descendants / ancestors, top, bottom
+LATTICE_RUNS = [(11, None), (12, None), (13, True), (13, False), (14, None)]
 
 
 def oname(k):
@@ -106,8 +115,16 @@ def run_impl(case):
             cs = list(cca.lindig_algorithm(K, iterate_extents=ie))
         elif a == 9:
             cs = [FormalConcept.from_objects(list(case['arg']), K, is_extent=case['flag'])]
-        else:
+        elif a == 10:
             cs = [FormalConcept.from_objects([oname(k) for k in case['arg']], K, is_extent=case['flag'])]
+        else:
+            kw = {11: {}, 12: {'algo': 'CbO'}, 13: {'algo': 'Lindig', 'iterate_extents': ie},
+                  14: {'algo': 'Sofia', 'L_max': lmax}}[a]
+            L = ConceptLattice.from_context(K, **kw)
+            n = len(L)
+            rel = [[canon(L.children(i)), canon(L.parents(i)), canon(L.descendants(i)), canon(L.ancestors(i))]
+                   for i in range(n)]
+            return {'concepts': [_views(c) for c in L], 'rel': rel, 'top': canon(L.top), 'bottom': canon(L.bottom)}
         return [_views(c) for c in cs]
     return list(guarded(go, timeout_s=30))
 
@@ -116,9 +133,26 @@ def _idx_list(v):
     return isinstance(v, list) and all(isinstance(x, int) and not isinstance(x, bool) and x >= 0 for x in v)
 
 
+def _opt(v):
+    return 'None' if v is None else '(Some %d)' % v
+
+
+def lattice_extra(out):
+    """(c_rel, c_top, c_bot) terms."""
+    if out[0] == 'ok' and isinstance(out[1], dict):
+        d = out[1]
+        if (isinstance(d['rel'], list) and all(len(r) == 4 and all(_idx_list(f) for f in r) for r in d['rel'])
+                and all(v is None or (isinstance(v, int) and v >= 0) for v in (d['top'], d['bottom']))):
+            return coq([tuple(r) for r in d['rel']]), _opt(d['top']), _opt(d['bottom'])
+        return '[]', '(Some 9999)', 'None'
+    return '[]', 'None', 'None'
+
+
 def impl_term(out):
     if out[0] == 'ok':
         v = out[1]
+        if isinstance(v, dict):
+            v = v['concepts']
         if not (isinstance(v, list) and all(isinstance(c, list) and len(c) == 4 and all(_idx_list(f) for f in c)
                                             for c in v)):
             return Raw('(IErr 12)')
@@ -128,10 +162,11 @@ def impl_term(out):
 
 def to_coq(case, out):
     ie = case['ie']
-    return 'Build_c02_case %s %s %s %s %d %s %d %s %s %s' % (
+    rel, top, bot = lattice_extra(out)
+    return 'Build_c02_case %s %s %s %s %d %s %d %s %s %s %s %s %s' % (
         COQ_BACKEND[case['backend']], coq(case['table']), coq(case['onames']), coq(case['anames']),
         case['algo'], 'None' if ie is None else '(Some %s)' % coq(bool(ie)), case['lmax'],
-        coq(case['arg']), coq(bool(case['flag'])), impl_term(out))
+        coq(case['arg']), coq(bool(case['flag'])), impl_term(out), rel, top, bot)
 
 
 def _nested_rows(t):
@@ -149,10 +184,10 @@ def stats(case):
     h, w = len(t), len(t[0])
     nc = n_concepts(t)
     return {'shape': '%dx%d' % (h, w), 'form': 'tall' if h > w else ('wide' if h < w else 'square'),
-            'algo': ALGO_NAMES[case['algo']] + ('' if case['algo'] not in (2, 8) else ' ie=%s' % case['ie']),
+            'algo': ALGO_NAMES[case['algo']] + ('' if case['algo'] not in (2, 8, 13) else ' ie=%s' % case['ie']),
             'backend': case['backend'], 'kind': case.get('kind', ''),
             'concepts': nc if nc < 8 else ('8-15' if nc < 16 else ('16-63' if nc < 64 else '>=64')),
-            'lmax': ('n/a' if case['algo'] not in (3, 7) else
+            'lmax': ('n/a' if case['algo'] not in (3, 7, 14) else
                      ('= #concepts' if case['lmax'] == nc else '> #concepts'))}
 
 
@@ -168,20 +203,31 @@ def _lmax(rng, t):
     return rng.choice([nc, nc, cap, cap + 1, max(cap, 100), nc + 1])
 
 
+LATTICE_RUNS_DEFAULT = None
+LATTICE_CAP = 24    # set per tier in generate()
 LINDIG_CAP = 200   # ConceptLattice(children_dict=...) is super-linear: 512 concepts take minutes
 
 
-def table_cases(rng, t, kind, runs=LATTICE_RUNS, n_from_objects=2, rotate=None, names=True):
+def table_cases(rng, t, kind, runs=LATTICE_RUNS_DEFAULT, n_from_objects=2, rotate=None, names=True, n_lattice=1):
     """All lattice-construction runs on one table (back-ends drawn per run) + from_objects cases."""
     h, w = len(t), len(t[0])
-    if n_concepts(t) > LINDIG_CAP:
+    if runs is None:
+        runs = RUNS13
+    nc = n_concepts(t)
+    lat = list(LATTICE_RUNS)
+    if nc > LINDIG_CAP:
         runs = [r for r in runs if r[0] not in (0, 2, 8)]
+        lat = [r for r in lat if r[0] not in (11, 13)]
+    if nc > LATTICE_CAP:
+        lat = []          # the relations of every index against the cubic spec filters: keep lattices small
+    k0 = rotate if rotate is not None else rng.randrange(5)
+    runs = list(runs) + [lat[(k0 + j) % len(lat)] for j in range(min(n_lattice, len(lat)))]
     onames = rng.sample(range(60), h) if names else list(range(h))
     anames = rng.sample(range(60), w) if names else list(range(w))
     out = []
     for k, (a, ie) in enumerate(runs):
         b = BACKENDS[(rotate + k) % 3] if rotate is not None else rng.choice(BACKENDS)
-        out.append(_mk(b, t, a, ie, _lmax(rng, t) if a in (3, 7) else 0, onames=onames, anames=anames, kind=kind))
+        out.append(_mk(b, t, a, ie, _lmax(rng, t) if a in (3, 7, 14) else 0, onames=onames, anames=anames, kind=kind))
     for _ in range(n_from_objects):
         b = rng.choice(BACKENDS)
         arg = gen.random_subset(rng, h)
@@ -222,31 +268,32 @@ def exhaustive_tables():
 
 
 def generate(rng, tier):
-    global SHARD
+    global SHARD, LATTICE_CAP
     SHARD = 600 if tier == 'thorough' else 200     # coqc start-up is ~0.4 s per shard
+    LATTICE_CAP = 64 if tier == 'thorough' else 24
     cases = []
     if tier == 'thorough':
         for k, t in enumerate(exhaustive_tables()):
-            runs = LATTICE_RUNS
+            runs = RUNS13
             if len(t) * len(t[0]) == 12:
                 # 3x4 / 4x3 (8192 tables): the five order-deterministic runs on every table, the eight
                 # set-compared Lindig / from_context / Sofia variants rotated, two per table
                 runs = CORE_RUNS + [ROTATED_RUNS[(2 * k) % 8], ROTATED_RUNS[(2 * k + 1) % 8]]
             cases += table_cases(rng, t, 'exhaustive', runs=runs, n_from_objects=0, rotate=k, names=False)
         for t, kind in scale_tables(9):
-            cases += table_cases(rng, t, kind)
+            cases += table_cases(rng, t, kind, n_lattice=5)
         n_rand, dims = 1000, [(8, 8)] * 12 + [(10, 6), (6, 10), (9, 9), (10, 10)]
     else:
         ex = list(exhaustive_tables())
         for k, t in enumerate(rng.sample(ex, 90)):
             cases += table_cases(rng, t, 'exhaustive-sample', n_from_objects=0, rotate=k, names=False)
         for t, kind in scale_tables(6):
-            cases += table_cases(rng, t, kind, n_from_objects=1)
+            cases += table_cases(rng, t, kind, n_from_objects=1, n_lattice=2)
         n_rand, dims = 85, [(6, 6)] * 3 + [(7, 7), (8, 5), (5, 8), (8, 8)]
     for _ in range(n_rand):
         mh, mw = rng.choice(dims)
         t, kind = gen.random_table(rng, mh, mw)
-        cases += table_cases(rng, t, kind)
+        cases += table_cases(rng, t, kind, n_lattice=2 if tier == 'thorough' else 1)
     return cases
 
 
@@ -262,7 +309,7 @@ def shrink(case):
         for c in gen.shrink_table_case(base, row_keys=('arg',) if case['algo'] == 9 else ()):
             t = c['table']
             c['onames'], c['anames'] = list(range(len(t))), list(range(len(t[0])))
-            if c['algo'] in (3, 7):
+            if c['algo'] in (3, 7, 14):
                 c['lmax'] = 2 ** min(len(t), len(t[0]))
             if c['algo'] != 9:
                 c['arg'] = []
